@@ -367,7 +367,58 @@ def wl_native_timestamps(ctx, rng, i):
                           {"version": ver, "type": t, "property": prop, "value_given": label, "output": out, "issues": issues[:3]})
 
 
+def wl_native_refs(ctx, rng, i):
+    """References given as library objects (not id strings) whose identifier is not valid for the referencing object's spec
+    version: an object of the other version, with a UUID of a version that 2.0 does not admit."""
+    import stix2
+    refbases = [b for b in BASES if b[0] == "2.0"]
+    ver, bname = refbases[i % len(refbases)]
+    g = ObjGen(rng, ver, hostile=False, ts_max_digits=3, openvocab_custom=False)
+    t, o = make_base(g, ver, bname, "max", granular=False)
+    if validator.validate(o, ver):
+        ctx.skip("generator error")
+        return
+    cls = cls_for(ver, t)
+    sl, _ = corrupt.slots(ver, o)
+    refs = [s_ for s_ in sl if s_.kind["k"] == "ref" and isinstance(corrupt.get(o, s_.path), str) and s_.section in ("top", "element") and "observable" not in s_.section]
+    import copy
+    for s_ in refs[:6]:
+        cur = corrupt.get(o, s_.path)
+        rt = cur.split("--")[0]
+        u1 = "d83fce45-ef58-1c6c-a3f4-1fbc32e98c%02x" % rng.randrange(256)        # UUID version 1: fine in 2.1, not in 2.0
+        try:
+            with warnings.catch_warnings():
+                warnings.simplefilter("ignore")
+                rcls = stix2.registry.class_for_type(rt, "2.1", "objects") or stix2.registry.class_for_type(rt, "2.1", "observables")
+                g21 = ObjGen(rng, "2.1", hostile=False, ts_max_digits=3, openvocab_custom=False)
+                tj = g21.make(rt, "min", granular=False)
+                tj["id"] = "%s--%s" % (rt, u1)
+                target = rcls(**tj)
+        except Exception:
+            continue
+        kw = copy.deepcopy(o)
+        corrupt.setp(kw, s_.path, target)
+        ctx.ev()
+        ctx.count("native_reference_cases")
+        try:
+            with warnings.catch_warnings():
+                warnings.simplefilter("ignore")
+                obj = cls(allow_custom=False, **kw)
+                out = json.loads(obj.serialize())
+        except Exception:
+            ctx.count("rejected")
+            continue
+        ctx.count("accepted_outputs_validated")
+        ctx.nontrivial(ver, t, ".".join(map(str, s_.path)), "reference-as-object")
+        issues = validator.validate(out, ver)
+        if issues:
+            ctx.violation(classify(issues[0], out), "%s %s.%s given a 2.1 %s object with a version-1 UUID emitted %r: %s" % (
+                ver, t, ".".join(map(str, s_.path)), rt, corrupt.get(out, s_.path) if True else None, issues[0][2][:120]),
+                {"version": ver, "type": t, "property": ".".join(map(str, s_.path)), "reference_given_as": "%s object of 2.1 with id %s" % (rt, target["id"]), "output": out, "issues": issues[:3]})
+
+
 WORKLOADS = [
+    Workload("native-references", wl_native_refs, quick=lambda: len([b for b in BASES if b[0] == "2.0"]), thorough=lambda: len([b for b in BASES if b[0] == "2.0"]) * 6),
     Workload("native-timestamps", wl_native_timestamps, quick=lambda: len(TS_SLOTS), thorough=lambda: len(TS_SLOTS) * 20),
     Workload("bases", wl_bases, quick=lambda: len(BASES) * 2, thorough=lambda: len(BASES) * 16, exhaustive=True),
     Workload("nearvalid", wl_nearvalid, quick=300, thorough=80000),
